@@ -159,3 +159,68 @@ var _ = register(&propSpec{
 })
 
 func TestC05Concurrent(t *testing.T) { runProp(t, "C05.concurrent") }
+
+// ---- C05.raceonly: nondeterministic constructs (random filter, lorem random, now) -----------
+// Their output cannot be compared with a sequential reference, but concurrent
+// executions must still not touch shared memory without synchronisation.
+
+func checkC05RaceOnly(c any, r *Rec) error {
+	cs := c.(*c05Case)
+	_, shared, _, err := compileProgram(cs.Prog, cs.Trim, cs.LStrip)
+	if err != nil {
+		return skipf("program does not compile: %v", err)
+	}
+	var wg sync.WaitGroup
+	start := make(chan struct{})
+	var running, maxRunning int32
+	for g := 0; g < cs.K; g++ {
+		wg.Add(1)
+		go func(g int) {
+			defer wg.Done()
+			<-start
+			n := atomic.AddInt32(&running, 1)
+			for {
+				m := atomic.LoadInt32(&maxRunning)
+				if n <= m || atomic.CompareAndSwapInt32(&maxRunning, m, n) {
+					break
+				}
+			}
+			for i := 0; i < cs.Reps; i++ {
+				_, _ = c04Exec(shared, c04Step{Variant: cs.Variants[g%len(cs.Variants)], Entry: []string{"Execute", "ExecuteBytes", "ExecuteWriter", "ExecuteWriterUnbuffered"}[(g+i)%4]})
+			}
+			atomic.AddInt32(&running, -1)
+		}(g)
+	}
+	close(start)
+	wg.Wait()
+	src := cs.Prog.Files[cs.Prog.Entry]
+	for _, f := range []string{"|random", " random ", `{% now "2006" %}`} {
+		if strings.Contains(src, f) {
+			r.Class("uses:" + strings.TrimSpace(f))
+		}
+	}
+	if atomic.LoadInt32(&maxRunning) >= 2 && (strings.Contains(src, "random") || strings.Contains(src, `{% now "2006" %}`)) {
+		r.NonTrivial(fmt.Sprintf("%v|%d|%d", cs.Prog.Files, cs.K, cs.Reps))
+	}
+	return nil
+}
+
+var _ = register(&propSpec{
+	ID:    "C05.raceonly",
+	Journ: true,
+	Rule:  "programs that use the nondeterministic constructs (random filter on lists and strings, lorem ... random, now without fake) executed by 2-8 goroutines x 1-12 repetitions behind a barrier under the race detector; outputs are not compared (they legitimately differ), the oracle is the race detector alone. Non-trivial: >= 2 goroutines overlapped and the program contains such a construct.",
+	Gen: func(t *rapid.T) any {
+		cs := &c05Case{
+			Prog: genProgram(t, progOpts{includes: true, inherit: true, stateful: true, nondeterm: true, maxDepth: 3, maxNodes: 25}),
+			K:    drawInt(t, 2, 8, "k"), Reps: drawInt(t, 1, 12, "reps"), Variants: []int{drawInt(t, 0, 11, "variant")},
+		}
+		// make sure the interesting constructs are there
+		extra := pick(t, "extra", []string{"{{ items|random }}", "{{ words|random }}{{ title|random }}", "{% lorem 3 w random %}", "{% lorem 2 p random %}", `{% now "2006" %}`, "{% for w in words %}{{ nums|random }}{% endfor %}"})
+		cs.Prog.Files[cs.Prog.Entry] += extra
+		return cs
+	},
+	New:   func() any { return &c05Case{} },
+	Check: checkC05RaceOnly,
+})
+
+func TestC05RaceOnly(t *testing.T) { runProp(t, "C05.raceonly") }
